@@ -17,7 +17,7 @@ void  __real_free (void *);
 
 sim_alloc_t sim_alloc;
 
-#define TAB_BITS 15
+#define TAB_BITS 18
 #define TAB_SIZE (1u << TAB_BITS)
 #define TOMB ((const void *)1)
 
@@ -27,7 +27,11 @@ typedef struct
     size_t      size;
     const void *site;
     int         op;
+    uint32_t    gen;        /* slot belongs to the current run iff gen == cur_gen */
 } live_t;
+
+static uint32_t cur_gen = 1;
+#define EMPTY(i) (tab[i].gen != cur_gen || tab[i].p == NULL)
 
 static live_t tab[TAB_SIZE];
 static unsigned tab_used;       /* live + tombstones */
@@ -44,8 +48,8 @@ tab_find (const void *p)
     unsigned i = slot_of (p), n;
     for (n = 0; n < TAB_SIZE; n++, i = (i + 1) & (TAB_SIZE - 1))
     {
+	if (EMPTY (i)) return NULL;
 	if (tab[i].p == p) return &tab[i];
-	if (tab[i].p == NULL) return NULL;
     }
     return NULL;
 }
@@ -61,9 +65,10 @@ tab_add (const void *p, size_t size, const void *site)
     }
     for (n = 0; n < TAB_SIZE; n++, i = (i + 1) & (TAB_SIZE - 1))
     {
-	if (tab[i].p == NULL || tab[i].p == TOMB)
+	if (EMPTY (i) || tab[i].p == TOMB)
 	{
-	    if (tab[i].p == NULL) tab_used++;
+	    if (EMPTY (i)) tab_used++;
+	    tab[i].gen = cur_gen;
 	    tab[i].p = p; tab[i].size = size; tab[i].site = site; tab[i].op = sim_alloc.op_index;
 	    sim_alloc.live_blocks++;
 	    sim_alloc.live_bytes += size;
@@ -86,7 +91,8 @@ tab_del (const void *p)
 void
 sim_alloc_reset (void)
 {
-    memset (tab, 0, sizeof tab);
+    cur_gen++;                      /* forgets every slot in O(1) */
+    if (cur_gen == 0) { memset (tab, 0, sizeof tab); cur_gen = 1; }
     tab_used = 0;
     memset (&sim_alloc, 0, sizeof sim_alloc);
 }
@@ -132,7 +138,7 @@ sim_alloc_live_sites (const void **sites, size_t *sizes, int *ops, int n)
     int c = 0;
     for (i = 0; i < TAB_SIZE; i++)
     {
-	if (tab[i].p && tab[i].p != TOMB)
+	if (!EMPTY (i) && tab[i].p != TOMB)
 	{
 	    if (c < n) { sites[c] = tab[i].site; sizes[c] = tab[i].size; ops[c] = tab[i].op; }
 	    c++;
@@ -267,7 +273,7 @@ sim_alloc_contains (const void *p, size_t n)
 {
     unsigned i;
     for (i = 0; i < TAB_SIZE; i++)
-	if (tab[i].p && tab[i].p != TOMB &&
+	if (!EMPTY (i) && tab[i].p != TOMB &&
 	    (const char *)p >= (const char *)tab[i].p && (const char *)p + n <= (const char *)tab[i].p + tab[i].size)
 	    return 1;
     return 0;
